@@ -1664,6 +1664,7 @@ bus_connections_reload_policy (BusConnections *connections,
   BusConnectionData *d;
   DBusConnection *connection;
   DBusList *link;
+  BusClientPolicy *policy;
 
   _dbus_assert (connections != NULL);
   _DBUS_ASSERT_ERROR_IS_CLEAR (error);
@@ -1677,17 +1678,21 @@ bus_connections_reload_policy (BusConnections *connections,
       _dbus_assert (d != NULL);
       _dbus_assert (d->policy != NULL);
 
-      bus_client_policy_unref (d->policy);
-      d->policy = bus_context_create_client_policy (connections->context,
-                                                    connection,
-                                                    error);
-      if (d->policy == NULL)
+      /* Keep the old policy until we have the new one: a completed
+       * connection must never be left without a policy. */
+      policy = bus_context_create_client_policy (connections->context,
+                                                 connection,
+                                                 error);
+      if (policy == NULL)
         {
           _dbus_verbose ("Failed to create security policy for connection %p\n",
                       connection);
           _DBUS_ASSERT_ERROR_IS_SET (error);
           return FALSE;
         }
+
+      bus_client_policy_unref (d->policy);
+      d->policy = policy;
     }
 
   return TRUE;
